@@ -14,9 +14,10 @@ transfer thread talks to a silent fake socket under a virtual clock and can be j
 Observations are compared with the extracted model coq/theories/Tftp/RequestPort.v (driver ocaml/bin/c09port, entry
 C09/PortEntry.v).
 
-Clauses: C09:port_reaction, C09:port_more_than_one_reaction, C09:internal_error_path, C09:port_stops_serving, and
-C09:port_reply_unsendable_logged - the OSError of a reply that cannot be sent is logged with a traceback by the
-catch-all (known finding D22; reported for source-port-0 cases only, see `match_known`).
+Clauses: C09:port_reaction, C09:port_more_than_one_reaction, C09:internal_error_path, C09:port_stops_serving,
+C09:port_fault_reaction.  A datagram from UDP source port 0 must get no reaction at all (D22, repaired by 7078de3:
+before, the reply was attempted, sendto failed and the OSError was logged); a reply attempt to port 0 or a logged
+exception is a violation like any other.
 
 Used by harness/c09.py through `port_checks(tier, rng, report)`; `python harness/c09_port.py [--tier T]` runs it alone.
 """
@@ -41,7 +42,9 @@ REQ = ("::1", 40001, 0, 0)
 REQ0 = ("2001:db8::9", 0, 0, 0)          # source port 0: cannot be replied to
 PROBE_ADDR = ("::1", 40002, 0, 0)
 PROBE = b"\x00\x02probe\x00octet\x00"   # a write request: the live server answers ERROR 2
-SOURCES = [REQ, REQ0]
+UNREACH = ("2001:db8::dead", 40003, 0, 0)   # sendto() to it fails with ENETUNREACH: an environment fault
+SOURCES = [REQ, REQ0, UNREACH]
+SRC_CODE = {0: 1, 1: 0, 2: 2}            # model encoding: 1 ordinary, 0 source port 0, 2 unreachable
 # ancillary data of recvmsg when the server uses IPV6_RECVPKTINFO, and the server address the transfer must get:
 # none at all (legal: the option may not be honoured), the RFC 3542 in6_pktinfo (16 address bytes + interface
 # index), an unrelated control message before it, only an unrelated one
@@ -56,7 +59,6 @@ ANCILLARY = {
 }
 PKTINFO_KINDS = [None, "none", "pktinfo", "other+pktinfo", "other"]
 ALPHABET = [0, 1, 2, 3, 4, 5, 6, 8, 9, 0x61, 0xff]
-UNSENDABLE_CLAUSE = "C09:port_reply_unsendable_logged"
 
 HANDLER_SETS = [
     [("const", True)],
@@ -154,6 +156,8 @@ class _ServerSock:
         self.port.events.append((self.current, "send", bytes(data), addr))
         if addr[1] == 0:
             raise OSError(errno.EINVAL, "Invalid argument")
+        if addr == UNREACH:
+            raise OSError(errno.ENETUNREACH, "Network is unreachable")
 
     def close(self):
         pass
@@ -237,26 +241,47 @@ class Port:
         old = (S.socket, S.time, S._TftpReadRequest)
         S.socket, S.time, S._TftpReadRequest = shim, types.SimpleNamespace(monotonic=lambda: clock[0]), Rec
         old_thr, old_str = S.threading, S.socket_address_to_str
-        if fault is not None:
-            class FaultThread(threading.Thread):
-                def start(self_t):
-                    port.fire(ST_THREAD, None)
-                    return super().start()
-            thr = types.SimpleNamespace(**{k: getattr(threading, k) for k in dir(threading) if not k.startswith("__")})
-            thr.Thread = FaultThread
-            S.threading = thr
+        started = []                                  # every thread the server code starts during this run
 
+        class FaultThread(threading.Thread):
+            def start(self_t):
+                port.fire(ST_THREAD, None)
+                started.append(self_t)
+                return super().start()
+        thr = types.SimpleNamespace(**{k: getattr(threading, k) for k in dir(threading) if not k.startswith("__")})
+        thr.Thread = FaultThread
+        S.threading = thr
+        patched_levels = []
+        if fault is not None:
             def addr_str(a):
                 port.fire(ST_LOG, None, 0)
                 return old_str(a)
             S.socket_address_to_str = addr_str
-            for lvl in ("debug", "info", "error"):
+            in_exception = [False]
+            # every logger method a branch could use for its log statement - whichever level it logs at is not
+            # fixed by the property; `exception` (what the catch-all itself needs) never raises
+            for lvl in ("debug", "info", "warning", "warn", "error", "critical", "fatal", "log"):
+                if not hasattr(S.logger, lvl):
+                    continue
+
                 def mk(real):
                     def method(*a, **k):
-                        port.fire(ST_LOG, None, 1)
+                        if not in_exception[0]:
+                            port.fire(ST_LOG, None, 1)
                         return real(*a, **k)
                     return method
                 setattr(S.logger, lvl, mk(getattr(S.logger, lvl)))
+                patched_levels.append(lvl)
+            real_exception = S.logger.exception
+
+            def exception(*a, **k):
+                in_exception[0] = True
+                try:
+                    return real_exception(*a, **k)
+                finally:
+                    in_exception[0] = False
+            S.logger.exception = exception
+            patched_levels.append("exception")
         escaped = None
         hang = False
         try:
@@ -264,13 +289,13 @@ class Port:
                 srv._run()
             except BaseException as ex:                 # nothing may escape the serve loop
                 escaped = type(ex).__name__
-            for r in self.created:
-                r._thread.join(20)
-                hang = hang or r._thread.is_alive()
+            for t in started:                      # not by a private attribute name of the request object
+                t.join(20)
+                hang = hang or t.is_alive()
         finally:
             S.socket, S.time, S._TftpReadRequest = old
             S.threading, S.socket_address_to_str = old_thr, old_str
-            for lvl in ("debug", "info", "error"):
+            for lvl in patched_levels:
                 S.logger.__dict__.pop(lvl, None)
             srv._shutdown_requested = False
             self.fault = self.armed = None
@@ -449,7 +474,7 @@ def fault_cases(tier, rng):
                 for d in targets:
                     if quick and rng.random() < 0.6:
                         continue
-                    src = 1 if rng.random() < 0.15 else 0
+                    src = rng.choice([1, 2]) if rng.random() < 0.2 else 0
                     pos = rng.randrange(3)
                     items = [follow, follow, (b"\x00\x02", 0)]
                     items[pos] = (d, src)
@@ -494,6 +519,23 @@ def gen_cases(tier, rng):
         for b in special[:6]:
             yield ((a, b, special[3]), rng.choice(SERVING_SETS), None)
             yield ((special[3], a, b), rng.choice(SERVING_SETS), None)
+    # source port 0 with every class of datagram, every handler set: no reaction at all
+    classes = [rrq(b"f", b"octet", []), rrq(b"f", b"NETASCII", [(b"blksize", b"1428"), (b"tsize", b"0")]),
+               rrq(b"f", b"octet", [(b"timeout", b"5s")]), rrq(b"nobody/serves", b"octet", []), b"\x00\x01f\x00octet",
+               b"\x00\x01", rrq(b"f", b"mail", []), b"\x00\x02w\x00octet\x00", b"\x00\x03\x00\x01x", b"\x00\x04\x00\x01",
+               b"\x00\x05\x00\x01x\x00", b"\x00\x06blksize\x008\x00", b"", b"\x00", b"\x00\x00", b"\x00\x07", b"\xff\xff\x00"]
+    for h in range(len(HANDLER_SETS)):
+        for d in classes:
+            yield (((d, 1),), h, None)
+        yield (tuple((d, 1) for d in classes[:8]), h, None)
+        yield (((classes[0], 0), (classes[0], 1), (classes[7], 1), (classes[0], 0)), h, None)
+    # a requester the environment does not let us answer (sendto raises ENETUNREACH): one attempt, logged, and the
+    # server keeps serving - alone, and first/second/last of a history
+    for h in range(len(HANDLER_SETS)):
+        for d in classes:
+            yield (((d, 2),), h, None)
+        yield (((classes[7], 2), (classes[0], 0), (classes[7], 0)), h, None)
+        yield (((classes[0], 0), (classes[5], 2), (classes[3], 2), (classes[7], 0)), h, None)
     yield from fault_cases(tier, rng)
     for pk in PKTINFO_KINDS[1:]:
         for (d, src) in special + [rng.choice(pool) for _k in range(20 if quick else 300)]:
@@ -505,7 +547,7 @@ def gen_cases(tier, rng):
 # ----------------------------------------------------------------------------- evaluation
 def line(d, hs_index, src, obs, fault=None):
     fx = [] if fault is None else [fault[1], fault[2] or 0, fault[3]]
-    return sx([[d, [handler_sx(s) for s in HANDLER_SETS[hs_index]], SOURCES[src][1] != 0, fx], obs])
+    return sx([[d, [handler_sx(s) for s in HANDLER_SETS[hs_index]], SRC_CODE[src], fx], obs])
 
 
 COVERED = {"within": 0, "outside": 0}     # datagrams whose case satisfies port_validb (C09_port_covered_cases) / not
@@ -528,6 +570,12 @@ def evaluate(cases, ports, exclog):
             r = unsx(out)
             ms.append(r[0])
             covered.append(len(r) > 4 and r[4] == 1)
+            ft = case[3] if len(case) == 4 else None
+            if ft is not None and ft[1] == ST_LOG and ft[0] == len(ms) - 1 and not names(r[2]):
+                # a fault in a log statement: where and at which level a branch logs is not fixed by the property;
+                # the extracted checker has judged this datagram by the loose rule (loop alive, at most the
+                # specified reaction) and accepted it - the exact observation is not compared
+                ol[len(ms) - 1] = r[0]
             fm += [x for x in names(r[1]) if x not in fm]
             fi += [x for x in names(r[2]) if x not in fi]
         COVERED["within"] += sum(covered)
@@ -537,10 +585,8 @@ def evaluate(cases, ports, exclog):
 
 
 def is_known_shape(case, failed):
-    """exactly the situation of finding D22: the only failed clause is the logged OSError of a reply that could not be
-    sent (the Coq checker gives that clause only for a requester with source port 0, for the one attempted reply,
-    with nothing else wrong)"""
-    return any(src == 1 for (_d, src) in case[0]) and list(failed) == [UNSENDABLE_CLAUSE]
+    """no finding of the request port is exempted any more (D22 was repaired by 7078de3)"""
+    return False
 
 
 def shrink(case, ports, exclog, keep):
@@ -594,14 +640,13 @@ def show(case):
             "datagram_hex": d.hex(), "handlers": [[k, common._jsonable(a)] for (k, a) in HANDLER_SETS[h]],
             "recvmsg_ancillary_data": pk, "injected_fault": fault,
             "source_port_zero": any(SOURCES[src][1] == 0 for (_x, src) in items),
+            "unreachable_requester": any(src == 2 for (_x, src) in items),
             "content": bytes(d), "events": []}
 
 
 def match_known(entry, case, failed):
-    """for C09.match_known: finding D22 = a datagram from source port 0 that requires a reply; the reply is attempted
-    once, sendto fails, the catch-all logs the OSError with a traceback, the server keeps serving"""
-    return (entry.get("id") == "D22" and isinstance(case, dict) and case.get("part") == "request-port"
-            and case.get("source_port_zero") is True and list(failed) == [UNSENDABLE_CLAUSE])
+    """kept for harness/c09.py: the request port has no known (unrepaired) finding"""
+    return False
 
 
 def port_checks(tier, rng, report):
@@ -614,7 +659,7 @@ def port_checks(tier, rng, report):
     logger.setLevel(logging.DEBUG)
     logger.propagate = False
     stats = {"port_evaluations": 0, "port_disagreements": 0, "port_impl_failures": 0, "port_model_failures": 0,
-             "port_source_port_zero_cases": 0, "port_unsendable_reply_logged_D22": 0, "port_histories": 0,
+             "port_source_port_zero_cases": 0, "port_unreachable_requester_cases": 0, "port_histories": 0,
              "port_recvmsg_cases": 0, "port_injected_faults": 0,
              "port_reactions": {"nothing": 0, "error1": 0, "error2": 0, "error4": 0, "start": 0, "other": 0}}
     failing = []
@@ -632,7 +677,8 @@ def port_checks(tier, rng, report):
                 stats["port_recvmsg_cases"] += 1 if case[2] is not None else 0
                 stats["port_injected_faults"] += 1 if case[3] is not None else 0
                 for (d_, src_), oi in zip(case[0], o):
-                    stats["port_source_port_zero_cases"] += src_
+                    stats["port_source_port_zero_cases"] += 1 if src_ == 1 else 0
+                    stats["port_unreachable_requester_cases"] += 1 if src_ == 2 else 0
                     core = [x for x in oi if x != [4]]
                     key = ("nothing" if not core else
                            "start" if core[0][0] == 1 and len(core) == 1 else
@@ -641,11 +687,6 @@ def port_checks(tier, rng, report):
                     stats["port_reactions"][key] += 1
                 if o != m:
                     stats["port_disagreements"] += 1
-                if is_known_shape(case, fi) and o == m:
-                    stats["port_unsendable_reply_logged_D22"] += 1
-                    if len(known_like) < 1:
-                        known_like.append((case, fi, o, m))
-                    continue
                 if fm:
                     stats["port_model_failures"] += 1
                 if fi or o != m:
@@ -706,9 +747,8 @@ def main(argv=None):
     print(json.dumps(report["extra"]))
     bad = 0
     for (case, fi, o, m) in out:
-        known = match_known({"id": "D22"}, case, fi)
-        bad += 0 if known else 1
-        print("KNOWN-FINDING D22" if known else "FAILURE", fi,
+        bad += 1
+        print("FAILURE", fi,
               json.dumps({k: v for k, v in case.items() if k not in ("content", "events")}))
         print("   impl :", o)
         print("   model:", m)
